@@ -17,7 +17,7 @@
    pest_parser.rs parse_inner (up to the pest call)   prepass;  reported position of an error: relocate
 
    Text = list of Unicode scalar values (Text/Str.v); byte offsets through utf8_len; the nesting scan runs
-   on the UTF-8 encoding (utf8).  Where Rust would panic the model returns RPanic:
+   on the UTF-8 encoding (utf8).  Where Rust would panic the model returns PPanicked:
      * `origins[i]` / `origins[body_start..body_end]` out of range           (one_pass_o)
      * `indent_stack.last().unwrap()` on an empty stack                        (indent_line)
    Byte indexing in check_nesting_depth is guarded, access by access, by the loop conditions
@@ -26,7 +26,8 @@
    moves onto a character boundary; the model computes with whole characters.
 
    The reused definitions of Text/Expand.v (is_decl_for, indent_of, is_blank, in_body, take_lines,
-   drop_lines, body_strip, drop_bytes, zrange, unlines, res, max_loop_iterations, max_expansion_passes)
+   drop_lines, body_strip, drop_bytes, zrange, unlines, max_loop_iterations, max_expansion_passes,
+   max_expanded_lines)
    are the parts of expand.rs that the C42 model shares with this one.                                   *)
 From Coq Require Import String.
 From VP Require Import Base.Tactics Text.Str Text.Expand.
@@ -34,7 +35,12 @@ Open Scope N_scope.
 
 (* ------------------------------------------------------------------ expand.rs, with origins *)
 
-Definition max_expanded_lines : N := 100000.
+(* outcome of a pass: value, limit error (Err(..) of expand.rs), or panic.  Text/Expand.v has its own
+   two-valued [res]; the C41 model keeps the panic outcome explicit and proves it unreachable. *)
+Inductive pres (A : Type) : Type := POk (a : A) | PErr | PPanicked.
+Arguments POk {A} a.
+Arguments PErr {A}.
+Arguments PPanicked {A}.
 
 (* parse_for_range: the bounds are i64 literals, widened (i128): no overflow *)
 Definition parse_for_range_w (t : str) : option (str * Z * Z) :=
@@ -84,38 +90,38 @@ Definition copies_o (var : str) (start : Z) (n : nat) (body : list str) (borig :
   (concat (map (fun v => map (copy_line_w strip pat v) body) (zrange start n)),
    concat (map (fun _ => borig) (zrange start n))).
 
-Definition lift_cons (line : str) (o : N) (r : res (list str * list N)) : res (list str * list N) :=
-  match r with ROk (ls, os) => ROk (line :: ls, o :: os) | RErr => RErr | RPanic => RPanic end.
-Definition lift_app (a : list str * list N) (r : res (list str * list N)) : res (list str * list N) :=
-  match r with ROk (ls, os) => ROk ((fst a ++ ls)%list, (snd a ++ os)%list) | RErr => RErr | RPanic => RPanic end.
+Definition lift_cons (line : str) (o : N) (r : pres (list str * list N)) : pres (list str * list N) :=
+  match r with POk (ls, os) => POk (line :: ls, o :: os) | PErr => PErr | PPanicked => PPanicked end.
+Definition lift_app (a : list str * list N) (r : pres (list str * list N)) : pres (list str * list N) :=
+  match r with POk (ls, os) => POk ((fst a ++ ls)%list, (snd a ++ os)%list) | PErr => PErr | PPanicked => PPanicked end.
 
 (* one pass over the lines; [orig] runs in lock step with [lines] (origins[i] is its head);
    [gen] = lines generated so far in this pass *)
 Fixpoint one_pass_o (fuel : nat) (gen : N) (lines : list str) (orig : list N)
-  : res (list str * list N) :=
+  : pres (list str * list N) :=
   match fuel with
-  | O => RErr
+  | O => PErr
   | S f =>
     match lines with
-    | [] => ROk ([], [])
+    | [] => POk ([], [])
     | line :: rest =>
       match orig with
-      | [] => RPanic                                      (* origins[i] out of range *)
+      | [] => PPanicked                                      (* origins[i] out of range *)
       | o :: orest =>
         let keep := lift_cons line o (one_pass_o f gen rest orest) in
         if (indent_of line =? 0) && is_decl_for (trim line) then
           match parse_for_range_w (trim line) with
           | None => keep
           | Some (var, start, stop) =>
-            if (max_loop_iterations <? stop - start)%Z then RErr
+            if (max_loop_iterations <? stop - start)%Z then PErr
             else
               let body := take_lines in_body rest in
               let k := length body in
               let n := Z.to_nat (stop - start) in
-              if (length orest <? k)%nat then RPanic      (* origins[body_start..body_end] *)
+              if (length orest <? k)%nat then PPanicked      (* origins[body_start..body_end] *)
               else
                 let gen' := gen + N.of_nat n * N.of_nat k in
-                if max_expanded_lines <? gen' then RErr
+                if max_expanded_lines <? gen' then PErr
                 else lift_app (copies_o var start n body (firstn k orest))
                               (one_pass_o f gen' (drop_lines in_body rest) (skipn k orest))
           end
@@ -124,29 +130,29 @@ Fixpoint one_pass_o (fuel : nat) (gen : N) (lines : list str) (orig : list N)
     end
   end.
 
-Definition one_pass_text_o (text : str) (orig : list N) : res (str * list N) :=
+Definition one_pass_text_o (text : str) (orig : list N) : pres (str * list N) :=
   let ls := str_lines text in
   match one_pass_o (S (length ls)) 0 ls orig with
-  | ROk (out, oo) => ROk (unlines out, oo)
-  | RErr => RErr
-  | RPanic => RPanic
+  | POk (out, oo) => POk (unlines out, oo)
+  | PErr => PErr
+  | PPanicked => PPanicked
   end.
 
-Fixpoint expand_go_o (passes : nat) (text : str) (orig : list N) : res (str * list N) :=
+Fixpoint expand_go_o (passes : nat) (text : str) (orig : list N) : pres (str * list N) :=
   match passes with
-  | O => RErr
+  | O => PErr
   | S n =>
     match one_pass_text_o text orig with
-    | ROk (e, oo) => if str_eqb e text then ROk (text, orig) else expand_go_o n e oo
-    | RErr => RErr
-    | RPanic => RPanic
+    | POk (e, oo) => if str_eqb e text then POk (text, orig) else expand_go_o n e oo
+    | PErr => PErr
+    | PPanicked => PPanicked
     end
   end.
 
 Fixpoint seqN (start : N) (n : nat) : list N :=
   match n with O => [] | S k => start :: seqN (start + 1) k end.
 
-Definition expand_o (source : str) : res (str * list N) :=
+Definition expand_o (source : str) : pres (str * list N) :=
   expand_go_o max_expansion_passes source (seqN 0 (length (str_lines source))).
 
 (* ------------------------------------------------------------------ indent.rs *)
@@ -177,19 +183,19 @@ Fixpoint repeat_str (m : str) (n : nat) : str :=
   match n with O => [] | S k => (m ++ repeat_str m k)%list end.
 
 (* one iteration of the `for line in source.lines()` loop: new state and the text appended *)
-Definition indent_line (st : ist) (line : str) : res (ist * str) :=
+Definition indent_line (st : ist) (line : str) : pres (ist * str) :=
   let verbatim := (line ++ [10])%list in
   if in_cmt st then
-    ROk ({| stk := stk st; expecting := expecting st; in_cmt := negb (contains (s2l "*/") line) |}, verbatim)
+    POk ({| stk := stk st; expecting := expecting st; in_cmt := negb (contains (s2l "*/") line) |}, verbatim)
   else if starts_with (s2l "/*") (trim_start line) then
-    ROk ({| stk := stk st; expecting := expecting st; in_cmt := negb (contains (s2l "*/") line) |}, verbatim)
+    POk ({| stk := stk st; expecting := expecting st; in_cmt := negb (contains (s2l "*/") line) |}, verbatim)
   else
     let trimmed := trim line in
-    if match trimmed with [] => true | _ => false end || starts_with [35] trimmed then ROk (st, verbatim)
+    if match trimmed with [] => true | _ => false end || starts_with [35] trimmed then POk (st, verbatim)
     else
       let indent := indent_of line in
       match stk st with
-      | [] => RPanic                                       (* indent_stack.last().unwrap() *)
+      | [] => PPanicked                                       (* indent_stack.last().unwrap() *)
       | current :: _ =>
         let '(st1, out) :=
           if expecting st && (current <? indent) then
@@ -201,30 +207,30 @@ Definition indent_line (st : ist) (line : str) : res (ist * str) :=
              (repeat_str dedent_marker c ++ trimmed ++ [10])%list)
           else
             ({| stk := stk st; expecting := false; in_cmt := false |}, (trimmed ++ [10])%list) in
-        ROk (if is_block_start trimmed
+        POk (if is_block_start trimmed
              then {| stk := stk st1; expecting := true; in_cmt := in_cmt st1 |} else st1, out)
       end.
 
-Fixpoint indent_lines (st : ist) (lines : list str) : res (ist * str) :=
+Fixpoint indent_lines (st : ist) (lines : list str) : pres (ist * str) :=
   match lines with
-  | [] => ROk (st, [])
+  | [] => POk (st, [])
   | l :: r =>
     match indent_line st l with
-    | ROk (st', out) =>
+    | POk (st', out) =>
       match indent_lines st' r with
-      | ROk (st'', out') => ROk (st'', (out ++ out')%list)
-      | RErr => RErr | RPanic => RPanic
+      | POk (st'', out') => POk (st'', (out ++ out')%list)
+      | PErr => PErr | PPanicked => PPanicked
       end
-    | RErr => RErr | RPanic => RPanic
+    | PErr => PErr | PPanicked => PPanicked
     end
   end.
 
 Definition ist0 : ist := {| stk := [0]; expecting := false; in_cmt := false |}.
 
-Definition preprocess (source : str) : res str :=
+Definition preprocess (source : str) : pres str :=
   match indent_lines ist0 (str_lines source) with
-  | ROk (st, out) => ROk (out ++ repeat_str dedent_marker (pred (length (stk st))))%list
-  | RErr => RErr | RPanic => RPanic
+  | POk (st, out) => POk (out ++ repeat_str dedent_marker (pred (length (stk st))))%list
+  | PErr => PErr | PPanicked => PPanicked
   end.
 
 (* ------------------------------------------------------------------ UTF-8 *)
@@ -389,13 +395,13 @@ Inductive pre_out :=
 
 Definition prepass (source : str) : pre_out :=
   match expand_o source with
-  | RPanic => PPanic
-  | RErr => PExpandErr
-  | ROk (expanded, origins) =>
+  | PPanicked => PPanic
+  | PErr => PExpandErr
+  | POk (expanded, origins) =>
     match preprocess expanded with
-    | RPanic => PPanic
-    | RErr => PExpandErr
-    | ROk pre =>
+    | PPanicked => PPanic
+    | PErr => PExpandErr
+    | POk pre =>
       match check_nesting pre with
       | Some p => PNest (in_original source expanded origins pre p)
       | None => PPass expanded origins pre
